@@ -1,5 +1,5 @@
 use std::{
-    cell::UnsafeCell,
+    cell::{Cell, UnsafeCell},
     fmt,
     mem::{self, MaybeUninit},
     num::NonZeroUsize,
@@ -913,17 +913,50 @@ impl<'a> BenchContext<'a> {
                 }
             };
 
+            // If this thread panics (in `gen_input`, an input counter, or
+            // `benched`) before reaching all of this sample's barrier waits,
+            // perform the remaining waits while unwinding. Otherwise the other
+            // threads would wait forever and the panic would never be reported
+            // by the main thread.
+            struct BarrierUnwindGuard<'a> {
+                barrier: Option<&'a Barrier>,
+                remaining_waits: Cell<u8>,
+            }
+
+            impl Drop for BarrierUnwindGuard<'_> {
+                fn drop(&mut self) {
+                    if let Some(barrier) = self.barrier {
+                        if std::thread::panicking() {
+                            for _ in 0..self.remaining_waits.get() {
+                                barrier.wait();
+                            }
+                        }
+                    }
+                }
+            }
+
+            // Two waits at the start of the timed section and one at the end.
+            let barrier_guard =
+                BarrierUnwindGuard { barrier, remaining_waits: Cell::new(3) };
+
             // Synchronize all threads to start timed section simultaneously and
             // clear every thread's memory profiling info.
             //
             // This ensures work external to the timed section does not affect
             // the timing of other threads.
             let sync_threads = |is_start: bool| {
-                sync_impl(barrier, is_start);
+                let waits = sync_impl(barrier, is_start);
+                barrier_guard.remaining_waits.set(
+                    barrier_guard.remaining_waits.get().saturating_sub(waits),
+                );
 
                 // Monomorphize implementation to reduce code size.
+                //
+                // Returns the number of barrier waits performed.
                 #[inline(never)]
-                fn sync_impl(barrier: Option<&Barrier>, is_start: bool) {
+                fn sync_impl(barrier: Option<&Barrier>, is_start: bool) -> u8 {
+                    let mut waits = 0;
+
                     // Ensure benchmarked section has a `ThreadAllocInfo`
                     // allocated for the current thread and clear previous info.
                     let alloc_info = if is_start {
@@ -940,6 +973,7 @@ impl<'a> BenchContext<'a> {
 
                     if let Some(barrier) = barrier {
                         barrier.wait();
+                        waits += 1;
                     }
 
                     #[cfg(feature = "verif_hooks")]
@@ -957,11 +991,14 @@ impl<'a> BenchContext<'a> {
                         // Synchronize all threads.
                         if let Some(barrier) = barrier {
                             barrier.wait();
+                            waits += 1;
                         }
 
                         #[cfg(feature = "verif_hooks")]
                         crate::verif::point(23);
                     }
+
+                    waits
                 }
             };
 
